@@ -34,6 +34,8 @@ pub enum RequestError {
     ConnectionError(String),
     DeserializeError(String),
     Unexpected(String),
+    /// The tower answered with an error object.
+    ApiError(String),
 }
 
 impl RequestError {
@@ -64,7 +66,7 @@ pub async fn register(
     proxy: &Option<ProxyInfo>,
 ) -> Result<RegistrationReceipt, RequestError> {
     log::info!("Registering in the Eye of Satoshi (tower_id={tower_id})");
-    process_post_response(
+    match process_post_response(
         post_request(
             tower_net_addr,
             Endpoint::Register,
@@ -75,16 +77,22 @@ pub async fn register(
         )
         .await,
     )
-    .await
-    .map(|r: common_msgs::RegisterResponse| {
-        RegistrationReceipt::with_signature(
-            user_id,
-            r.available_slots,
-            r.subscription_start,
-            r.subscription_expiry,
-            r.subscription_signature,
-        )
-    })
+    .await?
+    {
+        ApiResponse::Response::<common_msgs::RegisterResponse>(r) => {
+            Ok(RegistrationReceipt::with_signature(
+                user_id,
+                r.available_slots,
+                r.subscription_start,
+                r.subscription_expiry,
+                r.subscription_signature,
+            ))
+        }
+        ApiResponse::Error(e) => Err(RequestError::ApiError(format!(
+            "{} (error_code={})",
+            e.error, e.error_code
+        ))),
+    }
 }
 
 /// Encapsulates the logging and response parsing of sending and appointment to the tower.
